@@ -122,6 +122,25 @@ func runC15(ctx *Ctx) {
 			if rapid.IntRange(0, 3).Draw(rt, "close") != 0 {
 				b = protowire.AppendTag(b, num, protowire.EndGroupType)
 			}
+		case 7:
+			// a TREE of groups: sibling sub-groups that themselves hold groups, with
+			// equal or different numbers (a skipper's open-group bookkeeping must
+			// shrink again when a group closes)
+			var tree func(depth int) []byte
+			tree = func(depth int) []byte {
+				num := protowire.Number(rapid.IntRange(1, 12).Draw(rt, "tnum"))
+				g := protowire.AppendTag(nil, num, protowire.StartGroupType)
+				for i, n := 0, rapid.IntRange(0, 3).Draw(rt, "kids"); i < n; i++ {
+					if depth < 4 && rapid.IntRange(0, 2).Draw(rt, "kidgroup") != 0 {
+						g = append(g, tree(depth+1)...)
+					} else {
+						g = protowire.AppendVarint(protowire.AppendTag(g, protowire.Number(rapid.IntRange(1, 12).Draw(rt, "knum")), protowire.VarintType), uint64(rapid.IntRange(0, 300).Draw(rt, "kval")))
+					}
+				}
+				return protowire.AppendTag(g, num, protowire.EndGroupType)
+			}
+			b = tree(0)
+			b = append(b, rapid.SliceOfN(rapid.Byte(), 0, 4).Draw(rt, "suffix")...)
 		case 0:
 			b = rapid.SliceOfN(rapid.Byte(), 0, 24).Draw(rt, "random")
 		case 1:
